@@ -59,7 +59,7 @@ LEVELS = {
     "C03": {
         "text": "Fixpoint (both modes), single trailing newline and independence from the interning history are evaluated on every case of the format suite; one "
                 "defect fixed (29c3ce8: block layout depended on a statement of an earlier block); 7 open classes inherited from C02. The model has no hidden state "
-                "(stated as a theorem); idempotence on the safe complement and the trailing-newline lemma are not proved.",
+                "(stated as a theorem). PROVED for every tree: successful normal-mode printing ends with a newline (frame lemma over all PrettyPrint methods). Not proved: idempotence on the safe complement; that the byte before the final newline is not a newline (needs a lexer fact).",
         "design_ref": "DESIGN.md section 7, C03",
         "note": _TB + "Partial (see text). Go map iteration order cannot be exhibited by the pure model; the printer uses the Order slice.",
         "technique": "Lean 4 model + differential correspondence run (two formatting passes, interning reset every 40th case)",
